@@ -304,3 +304,31 @@ func RunSingle(build func(src execution.Node) execution.Node, events []Ev) (log 
 	}()
 	return sink.Log, err, panicked
 }
+
+// RerunDiff builds the node once and runs the SAME instance twice over the same input (LOOKUP JOIN and subquery
+// expressions run one node instance once per outer record). Returns "" when both runs log the same output,
+// otherwise a description of the first difference.
+func RerunDiff(build func(src execution.Node) execution.Node, events []Ev) (diff string) {
+	defer func() {
+		if r := recover(); r != nil {
+			diff = fmt.Sprintf("panic while re-running: %v", r)
+		}
+	}()
+	counter := 0
+	src := &Src{Events: events, Gate: func(i int, e Ev) { counter = i + 1 }}
+	node := build(src)
+	var logs [2][]string
+	for run := 0; run < 2; run++ {
+		counter = 0
+		sink := &Sink{Counter: &counter}
+		if err := node.Run(Ctx(), sink.Produce, sink.Meta); err != nil {
+			return fmt.Sprintf("run %d fails: %v", run+1, err)
+		}
+		logs[run] = LogStrs(sink.Log)
+	}
+	a, b := strings.Join(logs[0], " "), strings.Join(logs[1], " ")
+	if a != b {
+		return fmt.Sprintf("first run emits [%s], second run of the same node emits [%s]", a, b)
+	}
+	return ""
+}
